@@ -1,6 +1,7 @@
 (* C08 -- Wire fidelity: the service receives every snapshot field intact, with auth. *)
 From Deep Require Import Base Wire WireProofs.
-From DeepGen Require Import WireMap.
+From DeepGen Require Import WireMap PLine.
+From Deep Require Import TieLine.
 
 (* the pairing (message field, record field) the protocol intends, written from the .proto documentation; the tables
    table_* and the field lists fields_* are REGENERATED from /repo/src (push/__init__.py and the record classes) *)
@@ -88,3 +89,11 @@ Theorem C08_text :
   (forall s, valid_text s = true -> sanitize s = s) /\ (forall s, valid_text (sanitize s) = true).
 Proof. split; [exact sanitize_valid_unchanged|exact sanitize_always_valid]. Qed.
 Print Assumptions C08_text.
+
+(* ---- tie by translation: TracePointConfig.line_no as it is in /repo/src NOW (gen/PLine.v): the line_number field of the wire
+   message is unsigned; what the getter hands to it is never negative (a METHOD tracepoint, for which the agent holds -1, reports 0 -
+   a negative value would make the encoder reject the whole snapshot), and a real line is reported unchanged *)
+Theorem C08_the_code_line_number_fits_the_wire :
+  forall n : Z, (0 <= gen_line_no n)%Z /\ ((0 <= n)%Z -> gen_line_no n = n).
+Proof. intros n. split; [apply code_line_fits_the_wire|apply code_line_kept]. Qed.
+Print Assumptions C08_the_code_line_number_fits_the_wire.
